@@ -797,7 +797,7 @@ class _Prop:
         "(sorted, reversed, hashed permutation of every directory listing) x {x.py before x.pyi, x.pyi before x.py}; "
         "each load is compared with a reference merge model and monitored for alias resolution inside merger.py, "
         "and the two pair orders of one base order must give the same normalised tree. Non-trivial = at least one directory listing had a choice of order; distinct = "
-        "distinct (placement, merged-tree hash, number of schedules), counted with a set of 64-bit hashes."
+        "distinct (placement, merged-tree hash, number of schedules), counted with a set of 64-bit hashes. Also drawn: decorators, class bases, properties with setters/deleters, shuffled stub parameter order, wildcard re-exports (`from pkg._impl import *`) in runtime modules, find_stubs_package independent of the placement, either order of the two search paths; every load is additionally compared with a stubs-free load of the same world (no runtime fact may change) and checked for parent/container consistency."
     )
     COMPONENTS = {
         "real": ["_griffe.loader", "_griffe.finder", "_griffe.agents.visitor", "_griffe.merger", "_griffe.mixins.set_member", "_griffe.models", "real files on tmpfs"],
